@@ -356,7 +356,11 @@ func buildRaceWorker() (string, error) {
 		return "", err
 	}
 	bin := filepath.Join(dir, "dstv-race")
-	cmd := exec.Command("go", "build", "-race", "-tags", "verif", "-o", bin, ".")
+	args := []string{"build", "-race", "-tags", "verif", "-o", bin}
+	if mf := os.Getenv("VERIF_MODFILE"); mf != "" {
+		args = append(args, "-modfile="+mf)
+	}
+	cmd := exec.Command("go", append(args, ".")...)
 	cmd.Dir = filepath.Join(verifRoot(), "harness")
 	cmd.Env = append(os.Environ(), "GOFLAGS=-mod=mod", "GOPROXY=off", "GOSUMDB=off", "GOTOOLCHAIN=local", "CGO_ENABLED=1")
 	if out, err := cmd.CombinedOutput(); err != nil {
